@@ -4,8 +4,10 @@ import random
 
 import condparse as CP
 
-MODAL_WORDS = {"M": ["M", "m", "Muss", "muss", "MUSS", "mUss", "MuSs"], "S": ["S", "s", "Soll", "soll", "SOLL", "sOLl"],
-               "K": ["K", "k", "Kann", "kann", "KANN", "kaNN"]}
+# (the grammar matches the indicator words case-insensitively; in Unicode that includes U+017F LATIN SMALL LETTER LONG S for s and U+212A KELVIN SIGN for k)
+MODAL_WORDS = {"M": ["M", "m", "Muss", "muss", "MUSS", "mUss", "MuSs", "Mu\u017fs", "mu\u017f\u017f"],
+               "S": ["S", "s", "Soll", "soll", "SOLL", "sOLl", "\u017foll", "\u017f"],
+               "K": ["K", "k", "Kann", "kann", "KANN", "kaNN", "\u212aann", "\u212a"]}
 NORM = {"M": "MUSS", "MUSS": "MUSS", "S": "SOLL", "SOLL": "SOLL", "K": "KANN", "KANN": "KANN", "U": "U", "X": "X", "O": "O"}
 MODAL = ("M", "S", "K")
 
